@@ -470,6 +470,35 @@ theorem afterClose_accepts (I tc : Nat) (sched : List SpecPing) (pings : List Na
     simp; omega
   simp [afterCloseClause, this]
 
+/-- The shape keepalive-F31 does not occur in the model: when the peer reports ping as unsupported the
+loop stops with that ping and does not close. -/
+theorem f31_accepts (tm : List Nat) (t0 : Int) (I : Nat) (pre : List Script) :
+    f31Shape tm ((obsOf I pre).map code) (specCloseTick (threshold t0) ((obsOf I pre).map code)) (run I t0 pre).tick
+      (run I t0 pre).pings (run I t0 pre).closeAt.toList = none := by
+  simp only [f31Shape]
+  rw [if_neg]
+  rintro ⟨h1, h2, _, h4⟩
+  rw [specCloseTick_model] at h1
+  have hlen : (run I t0 pre).pings.length = (run I t0 pre).tick := by
+    rw [(pings_at_pending_ticks I t0 pre).1]; simp
+  obtain ⟨_, hst⟩ := inv_run I t0 pre
+  cases hs : (run I t0 pre).status with
+  | closed => simp [hs] at h1
+  | running =>
+    rw [hs] at hst
+    have : ((obsOf I pre).map code).any (· == 1) = false := by
+      rw [List.any_eq_false]
+      intro a ha
+      obtain ⟨x, hx, rfl⟩ := List.mem_map.1 ha
+      rw [code_mnf, hst.2.2.2.1 x hx]; simp
+    rw [this] at h2; cases h2
+  | stopped =>
+    rw [hs] at hst
+    obtain ⟨d, _, _, _, h5, _⟩ := hst
+    rcases h4 with h4 | h4
+    · rw [hlen] at h4; omega
+    · rw [h5] at h4; exact h4 rfl
+
 theorem deadline_accepts (I : Nat) (pings : List Nat) : deadlineClause I pings (.all (pingTimeout I)) = none := by
   simp [deadlineClause, pingTimeout]
 
@@ -498,7 +527,8 @@ theorem monitor_accepts_model_loop (sc : Scenario) (hs : sc.sess = false) (env :
   have hend := endTick_model sc.I sc.t0 pre
   have hf30 := f30_accepts sc.I sc.tc (simFrom sc.I 0 0 pre) _ hlt
   rw [hp] at hf30
-  simp only [monitor, hs, modelObs, hsched, sim_outcomes, specT_eq, hend, hp, hcl, hclose, hticks, hf30,
+  have hf31 := f31_accepts sc.transientMnf sc.t0 sc.I pre
+  simp only [monitor, hs, modelObs, hsched, sim_outcomes, specT_eq, hend, hp, hcl, hclose, hticks, hf30, hf31,
     Bool.false_eq_true, if_false, ite_self]
   by_cases hr : sc.real = true ∨ (run sc.I sc.t0 pre).pings.isEmpty = true
   · simp only [hr, if_true]; rfl
@@ -578,6 +608,7 @@ theorem monitor_accepts_model_sess (sc : Scenario) (hs : sc.sess = true) (env : 
   have hend := endTick_model sc.I sc.t0 pre
   have hf30 := f30_accepts sc.I sc.tc (simFrom sc.I 0 0 pre) _ hlt
   have hafter := afterClose_accepts sc.I sc.tc (simFrom sc.I 0 0 pre) _ hlt
+  have hf31 := f31_accepts sc.transientMnf sc.t0 sc.I pre
   rw [hp] at hf30 hafter
   rw [hcl] at hshut2
   have hbeq : ((runCancel sc.I sc.t0 sc.scripts sc.tc).status == Status.closed) =
@@ -608,7 +639,7 @@ theorem monitor_accepts_model_sess (sc : Scenario) (hs : sc.sess = true) (env : 
       have : endAt sc.I sc.t0 sc.scripts sc.tc ≤ due := by rw [hdue]; exact Nat.le_max_left _ _
       simp; omega
     rw [this]
-  simp only [monitor, hs, modelObs, hsched, sim_outcomes, specT_eq, hend, hp, hcl, hclose, hticks, hf30, hafter,
+  simp only [monitor, hs, modelObs, hsched, sim_outcomes, specT_eq, hend, hp, hcl, hclose, hticks, hf30, hf31, hafter,
     hlong, if_true, hbeq, hdv, decide_eq_true_eq, ← hdue, sessClause, hlogged, hshut2, livesClause]
   cases sc.at1 with
   | none =>
